@@ -143,9 +143,22 @@ type Sim struct {
 	curDeliv *Datagram
 	replay   bool
 
+	// flagged tracks, per (observer, subject), the logical time at which the
+	// subject's expiry was (last) scheduled at the observer.
+	flagged map[[2]int]flagInfo
+
 	// statistics
 	Stats map[string]int64
 }
+
+type flagInfo struct {
+	expiry time.Time
+	at     int64
+}
+
+// ExpiryTicks is the logical equivalent of piko's one-minute node expiry:
+// 600 gossip intervals of 100 ticks (the real ratio at the default 100 ms).
+const ExpiryTicks = 60000
 
 type SimNode struct {
 	Idx     int
@@ -392,6 +405,29 @@ func (s *Sim) Apply(a Action) {
 			n.V.RemoveExpiredAt(time.Now().Add(-time.Hour))
 		case "late":
 			n.V.RemoveExpiredAt(time.Now().Add(3 * gossip.VNodeExpiry))
+		case "due":
+			// logical-clock expiry: remove exactly the nodes whose expiry was
+			// scheduled at least ExpiryTicks ago (flagging order = wall-clock order)
+			var cut time.Time
+			for _, m := range n.V.Nodes() {
+				if m.Expiry.IsZero() {
+					continue
+				}
+				for _, o := range s.Nodes {
+					if o.ID != m.ID {
+						continue
+					}
+					fi, ok := s.flagged[[2]int{n.Idx, o.Idx}]
+					if ok && s.Clock-fi.at >= ExpiryTicks && m.Expiry.After(cut) {
+						cut = m.Expiry
+					}
+				}
+			}
+			if !cut.IsZero() {
+				n.V.RemoveExpiredAt(cut.Add(time.Nanosecond))
+			} else {
+				n.V.RemoveExpiredAt(time.Now().Add(-time.Hour))
+			}
 		default:
 			// "upto:<id>": expire exactly the nodes whose expiry is not after <id>'s
 			id := a.Mode[len("upto:"):]
@@ -412,10 +448,50 @@ func (s *Sim) Apply(a Action) {
 	default:
 		panic("VERIF-HARNESS-ERROR unknown action " + a.Kind)
 	}
+	s.trackFlags()
 	s.Trail = append(s.Trail, a)
 	for _, m := range s.Monitors {
 		m.AfterStep(s, &s.Trail[len(s.Trail)-1])
 	}
+}
+
+func (s *Sim) trackFlags() {
+	if s.flagged == nil {
+		s.flagged = map[[2]int]flagInfo{}
+	}
+	for _, p := range s.Nodes {
+		if !p.Started {
+			continue
+		}
+		seen := map[int]bool{}
+		for _, m := range p.V.Nodes() {
+			for _, o := range s.Nodes {
+				if o.ID != m.ID || o.Idx == p.Idx {
+					continue
+				}
+				seen[o.Idx] = true
+				pair := [2]int{p.Idx, o.Idx}
+				if m.Expiry.IsZero() {
+					delete(s.flagged, pair)
+					continue
+				}
+				if fi, ok := s.flagged[pair]; !ok || !fi.expiry.Equal(m.Expiry) {
+					s.flagged[pair] = flagInfo{expiry: m.Expiry, at: s.Clock}
+				}
+			}
+		}
+		for pair := range s.flagged {
+			if pair[0] == p.Idx && !seen[pair[1]] {
+				delete(s.flagged, pair)
+			}
+		}
+	}
+}
+
+// FlaggedAt returns the logical time at which o's expiry was scheduled at p.
+func (s *Sim) FlaggedAt(p, o int) (int64, bool) {
+	fi, ok := s.flagged[[2]int{p, o}]
+	return fi.at, ok
 }
 
 // Deliver delivers in-flight datagram at index i (removing it unless dup).
